@@ -208,6 +208,12 @@ def run(tier, seed):
                 rz = rz[::-1].copy()
             elif order == "shuffled":
                 rz = np.array(rnd.sample(rz.tolist(), nrec))
+            if ci == 2:
+                # corpus: receivers listed in an order whose sorting permutation has a cycle of length >= 3 (a sort that is undone by indexing
+                # with the sorting permutation again goes unnoticed for ascending, descending and pairwise-swapped listings)
+                n, v, layered, special = 4, 2000.0, False, "none"
+                inter, vel, xr = np.array([250.0, 500.0, 750.0, 1000.0]), np.ones(4) * 2000.0, 350.0
+                rz, order, nrec = np.array([450.0, 150.0, 750.0, 300.0, 600.0]), "shuffled", 5
             if ci < 2:
                 # corpus (runs first): the two geometries on which a look-up table that also admits rays which stop short of the receiver line showed
                 # (a receiver on the interface at which trial rays turn; a receiver 2 m below the surface at 3000 m offset)
